@@ -121,6 +121,9 @@ func (g Genesis) String() string {
 	if g.Fork != nil && g.Fork.CheckInUpdateNew.Enabled {
 		f = fmt.Sprintf("fork@%d", g.Fork.CheckInUpdateNew.Height)
 	}
+	if g.Fork != nil && g.Fork.CheckInUpdate != nil {
+		f = fmt.Sprintf("legacy-fork@%d", *g.Fork.CheckInUpdate)
+	}
 	if g.DevMode {
 		f += " dev"
 	}
